@@ -256,7 +256,7 @@ class AggSuite(Suite):
     nontrivial_rule = "at least 2 sources and at least 3 values consumed, or an asynchronous completion, exception or early destruction"
 
     def gen_cases(self, rng, tier):
-        n = 6000 if tier == "quick" else 500000
+        n = 30000 if tier == "quick" else 500000
         cases = []
         for i in range(n):
             r = rng.random()
@@ -421,6 +421,117 @@ class AggSuite(Suite):
         return msgs
 
 
+FACT_RE = re.compile(r"(\w+)=(-?\w+)")
+
+
+class StressSuite(Suite):
+    """Real threads: one resolver thread per asynchronous source completes its awaits as fast as it can while the
+    consumer blocks in next()/iterator/future.sync() on the main thread, so queue pushes race with the running or
+    parked aggregator and the aggregator resumes on foreign threads.  The interleaving is not reproducible, so the
+    harness prints schedule-independent facts only and there is no model comparison."""
+    name = "aggregator-threads"
+    harness = HARNESS
+    driver = None
+    compare = False
+    corpus_prefix = "c14mt_"
+    chunk = 10
+    timeout = 240
+    nontrivial_rule = "at least 2 sources, at least one of them asynchronous"
+
+    def gen_cases(self, rng, tier):
+        n = 3000 if tier == "quick" else 60000
+        cases = []
+        for i in range(n):
+            ns = rng.choice([1, 2, 2, 3, 3, 4, 5])
+            mode = rng.choice(["v", "v", "a"])
+            scripts = []
+            for k in range(ns):
+                kind = rng.choice(["async-inf", "async-inf", "async-finite", "async-finite", "sync-finite", "sync-inf"])
+                if k == 0 and kind.startswith("sync"):
+                    kind = "async-" + kind.split("-")[1]
+                pre, cyc = gen_script(rng, kind)
+                if not cyc and rng.random() < 0.5:      # longer finite sources
+                    body = pre[:-1] if pre and pre[-1].startswith("t") else pre
+                    tail = pre[len(body):]
+                    pre = (body * rng.randint(2, 6))[:40] + tail
+                scripts.append((pre, cyc))
+            limit = rng.choice([20, 100, 300, 800])
+            style = rng.choice([0, 0, 2] + ([1] if mode == "v" else []))
+            lines = [("case 0 agg %s %d %s" % (mode, ns, " ".join(script_text(*x) for x in scripts))).rstrip(),
+                     "stress %d %d %d" % (limit, style, rng.randint(1, 10 ** 6))]
+            if rng.random() < 0.5:
+                lines.append("sdestroy %d" % rng.randint(1, 10 ** 6))
+            lines.append("end")
+            cases.append({"id": 0, "lines": lines})
+        return cases
+
+    def normalize(self, lines):
+        # the positions reached by the sources depend on the schedule
+        return [re.sub(r" p=\S+", "", l) for l in lines]
+
+    def nontrivial(self, case, out):
+        return int(case["lines"][0].split()[4]) >= 2
+
+    def stats(self, cases, outs):
+        res, styles, nsrc, values = {}, {}, {}, 0
+        for c in cases:
+            nsrc[c["lines"][0].split()[4]] = nsrc.get(c["lines"][0].split()[4], 0) + 1
+            w = c["lines"][1].split()
+            styles[w[2]] = styles.get(w[2], 0) + 1
+            o = outs.get(str(c["id"]), [])
+            if o:
+                f = dict(FACT_RE.findall(o[0]))
+                res[f.get("result", "?")] = res.get(f.get("result", "?"), 0) + 1
+                values += int(f.get("got", 0)) if f.get("got", "0").isdigit() else 0
+        return {"sources_per_case": nsrc, "access_style(0 next,1 iterator,2 future)": styles, "results": res,
+                "values_consumed": values,
+                "destroyed_with_resolver_threads_running": sum(1 for c in cases if c["lines"][2].startswith("sdestroy"))}
+
+    def oracle(self, case, out):
+        msgs = []
+        hdr = case["lines"][0].split()
+        n = int(hdr[4])
+        scripts = [parse_script(t) for t in hdr[5:]]
+        w = case["lines"][1].split()
+        if w[0] != "stress" or len(scripts) != n:
+            return msgs
+        limit = int(w[1])
+        if not out or not out[0].startswith("stress "):
+            return ["hang: no result line"]
+        f = dict(FACT_RE.findall(out[0]))
+        num = lambda k: int(f.get(k, "0"))
+        if num("dup"):
+            msgs.append("duplicate: %d values were delivered twice" % num("dup"))
+        if num("order_bad"):
+            msgs.append("order: %d values arrived before an earlier value of the same source" % num("order_bad"))
+        if num("unknown"):
+            msgs.append("union: %d values do not come from any source" % num("unknown"))
+        if num("lost"):
+            msgs.append("lost: %d sources have yielded values that were never delivered" % num("lost"))
+        infinite = any(cyc for _, cyc in scripts)
+        total = sum(sum(1 for a in pre if a == "y") for pre, _ in scripts)
+        throws = any(pre and pre[-1].startswith("t") for pre, _ in scripts)
+        if infinite or total >= limit:
+            if f.get("result") != "cut" or num("got") != limit:
+                msgs.append("end: expected %d values, got result=%s after %d" % (limit, f.get("result"), num("got")))
+        else:
+            want = "exc" if throws else "end"
+            if f.get("result") != want:
+                msgs.append(("exception" if throws or f.get("result") == "exc" else "end") +
+                            ": all sources are finite (%d values, throwing=%s) but the result is %s" % (total, throws, f.get("result")))
+            if num("got") != total:
+                msgs.append("lost: the sources yield %d values, %d were delivered before the end" % (total, num("got")))
+            if num("notended"):
+                msgs.append("end: the aggregate ended while %d sources had not ended" % num("notended"))
+            if f.get("result") == "exc" and not num("excok"):
+                msgs.append("exception: the reported exception was not thrown by any source")
+        for l in out[1:]:
+            ws = l.split()
+            if ws and ws[0] in ("sdestroy", "end") and len(ws) >= 3 and (ws[1] != "frames=0" or ws[2] != "guards=0"):
+                msgs.append("leak: after destruction %s %s" % (ws[1], ws[2]))
+        return msgs
+
+
 class C14(Spec):
     pid = "C14"
     lean_modules = ["CoclsModel.Props.C14"]
@@ -429,7 +540,7 @@ class C14(Spec):
                     "(harness/h_aggregator.cpp vs lean/Drivers/C14.lean) on generated source scripts and access sequences",
                     "the completion queue (queue.h, C09) abstracted as a FIFO whose parked popper is woken by the next push; "
                     "generator.h (C13) and the promise/future layer (C01/C02) taken as specified"]
-    technique = "Lean 4 invariant proof (induction over all operation lists of a small-step model) + differential correspondence with the real headers"
+    technique = "Lean 4 invariant proof (induction over all operation lists of a small-step model) + differential correspondence with the real headers + thread stress"
     level_text = ("Lean 4 theorems over an executable small-step model of generator_aggregator (one step per queue lock region; completions of "
                   "asynchronous sources interleave at every step): per-source order / exactly once, union at the end, ends iff all sources ended, "
                   "exception keeps the others and is rethrown last, argument routing, destructor drain waits for every in-flight source — for every "
@@ -439,14 +550,15 @@ class C14(Spec):
     level_note = ("trusted: Lean kernel (axioms propext/Classical.choice/Quot.sound at most), the hand-written model, the differential harness "
                   "(sampling), queue.h / generator.h / future layer (C09/C13/C01). Thread interleavings are covered by the theorems (any interleaving of "
                   "aggregator steps and source completions is an op list) but exercised on the real code only in serialised form (second thread joined, or "
-                  "blocking consumer + resolving thread where the outcome is schedule-independent).")
+                  "blocking consumer + resolving thread where the outcome is schedule-independent) and by a thread stress suite (one resolver thread per "
+                  "asynchronous source, schedule-independent facts checked by the oracle).")
     assumptions = ["the aggregate is destroyed only while it is not being accessed (parked at co_yield, before the first access, or after the end), "
                    "as generator_aggregator.h states",
                    "sources read their argument immediately when resumed (the argument is carried by reference)",
                    "when several sources throw, only the exception examined last is reported (the code keeps one exception_ptr)"]
 
     def suites(self):
-        return [AggSuite()]
+        return [AggSuite(), StressSuite()]
 
 
 SPEC = C14()
